@@ -51,7 +51,6 @@ DOCUMENTED = [
     ("THDM mH+ < 0", r"gm2calc::THDM::\w+$#Mass_basis", r"^\(basis\.mHp < 0\)$", "EInvalidInput"),
     ("THDM tachyon (gauge basis)", r"gm2calc::THDM::\w+$#Gauge_basis", r"^get_problems\(\)\.have_problem\(\)$", "EPhysicalProblem"),
     ("THDM tachyon (mass basis)", r"gm2calc::THDM::\w+$#Mass_basis", r"^get_problems\(\)\.have_problem\(\)$", "EPhysicalProblem"),
-    ("THDM undecidable basis", r"THDM_reader::operator\(\)$", r"mass_basis\.mh == 0.*gauge_basis\.lambda", "EInvalidInput"),
     ("THDM invalid Yukawa type", r"thdm::int_to_cpp_yukawa_type$", r".*", "ESetupError"),
     ("HMIX scale missing", r"GM2_slha_io::fill_scale$", r"^is_zero\(read_scale\(\"HMIX\"\)", "EInvalidInput"),
 ]
@@ -172,15 +171,107 @@ def _benign_guard(c):
     return bool(re.search(r"yukawa_type|Yukawa_type|input_type|have_problem\(\)", c))
 
 
-def _split_guard(cond, pol):
+def _split_guard(cond, pol, locals_=None):
     """(A && B) held true -> A true, B true;  (A || B) held false -> A false, B false"""
     c = strip_all(cond)
+    # a bool local that is initialised once stands for its initialiser
+    seen = 0
+    while c is not None and locals_ and c.get("k") == "DeclRefExpr" and c.get("rk") == "Var" and c.get("id") in locals_ and seen < 8:
+        cond = locals_[c["id"]]
+        c = strip_all(cond)
+        seen += 1
     if c is not None and c.get("k") == "BinaryOperator" and ((c.get("op") == "&&" and pol) or (c.get("op") == "||" and not pol)):
-        return _split_guard(c["c"][0], pol) + _split_guard(c["c"][1], pol)
+        return _split_guard(c["c"][0], pol, locals_) + _split_guard(c["c"][1], pol, locals_)
     # !X held true is X held false (an inlined helper tests `if (!cond) return;`)
     if c is not None and c.get("k") == "UnaryOperator" and c.get("op") == "!" and not c.get("postfix"):
-        return _split_guard(c["c"][0], not pol)
+        return _split_guard(c["c"][0], not pol, locals_)
     return [(cond, pol)]
+
+
+def _bool_eval(n, Rr, val, atoms):
+    """truth value of a condition tree under an assignment of its atoms `X != 0` (keyed by the rendering of X);
+    unknown leaves are collected in atoms when val is None"""
+    c = strip_all(n)
+    hops = 0
+    while c is not None and c.get("k") == "DeclRefExpr" and c.get("rk") == "Var" and c.get("id") in Rr.local_init and hops < 8:
+        c = strip_all(Rr.local_init[c["id"]])
+        hops += 1
+    if c is None:
+        raise ValueError("empty condition")
+    k = c.get("k")
+    if k == "BinaryOperator" and c.get("op") in ("&&", "||"):
+        a = _bool_eval(c["c"][0], Rr, val, atoms)
+        b = _bool_eval(c["c"][1], Rr, val, atoms)
+        return (a and b) if c["op"] == "&&" else (a or b)
+    if k == "UnaryOperator" and c.get("op") == "!":
+        return not _bool_eval(c["c"][0], Rr, val, atoms)
+    if k == "BinaryOperator" and c.get("op") in ("==", "!="):
+        l, r = strip_all(c["c"][0]), strip_all(c["c"][1])
+        zero = lambda x: x.get("k") in ("IntegerLiteral", "FloatingLiteral") and float(x.get("v") or x.get("s") or 1) == 0
+        if zero(r):
+            key = Rr.r(l)
+        elif zero(l):
+            key = Rr.r(r)
+        else:
+            raise ValueError("comparison is not against zero: %s" % Rr.r(c))
+        atoms.add(key)
+        v = True if val is None else val[key]
+        return v if c["op"] == "!=" else (not v)
+    raise ValueError("not a boolean combination of zero tests: %s" % Rr.r(c)[:80])
+
+
+def _undecidable_basis(F, R):
+    """V2b: the basis is rejected as undecidable exactly when mass-basis and gauge-basis input are both present or both
+    absent -- decided by the truth table of the throw's path condition over its atoms (robust to De Morgan rewrites,
+    named predicates and early returns)"""
+    import itertools
+    R.rule("V2b", "the THDM reader rejects with EInvalidInput exactly when (some mass-basis parameter != 0) == (some of "
+                  "lambda_1..5 != 0) is violated in neither direction: truth table of the throw's path condition over its "
+                  "zero-test atoms equals (M and G) or (not M and not G), M over mh, mH, mA, mHp, sin(beta-alpha)", 1)
+    fs = [f for f in F.functions.values() if re.search(r"THDM_reader::operator\(\)$", f["name"])]
+    if not fs:
+        R.broken("V2b: THDM_reader::operator() not found")
+        return
+    f = fs[0]
+    S, Rr = Struct(f), Renderer(f)
+    ths = [t for t in _throws(f) if _unq(t["tt"]) == "gm2calc::EInvalidInput"]
+    if len(ths) != 1:
+        R.broken("V2b: %d EInvalidInput throws in THDM_reader::operator()" % len(ths))
+        return
+    t = ths[0]
+    gs = [g for g in S.guards(t) if g[0] != "switch"]
+    atoms = set()
+    try:
+        for cond, pol in gs:
+            _bool_eval(cond, Rr, None, atoms)
+    except ValueError as e:
+        R.broken("V2b: path condition of the basis rejection is outside the modelled boolean language (%s)" % e)
+        return
+    mass = sorted(a for a in atoms if a.startswith("mass_basis."))
+    gauge = sorted(a for a in atoms if a.startswith("gauge_basis."))
+    other = sorted(atoms - set(mass) - set(gauge))
+    want_mass = ["mass_basis.mA", "mass_basis.mH", "mass_basis.mHp", "mass_basis.mh", "mass_basis.sin_beta_minus_alpha"]
+    if other or not gauge:
+        R.broken("V2b: unexpected atoms in the basis rejection: %s" % (other or "no gauge-basis atom"))
+        return
+    if mass != want_mass:
+        R.fail("V2b", "atoms of the basis rejection", F.loc(f, t), "the decision reads %s, documented are the five mass-basis "
+               "parameters %s" % (mass, want_mass), key="V2b|atoms")
+        return
+    al = sorted(atoms)
+    bad = None
+    for bits in itertools.product((False, True), repeat=len(al)):
+        val = dict(zip(al, bits))
+        pc = all(_bool_eval(c, Rr, val, set()) == pol for c, pol in gs)
+        M = any(val[a] for a in mass)
+        G = any(val[a] for a in gauge)
+        if pc != ((M and G) or (not M and not G)):
+            bad = (val, pc)
+            break
+    R.check("V2b", bad is None, "THDM_reader::operator(): throw <=> mass and gauge input both present or both absent",
+            F.loc(f, t), "counterexample %s: rejection %s" % (bad[0] if bad else "", "taken" if bad and bad[1] else "not taken"),
+            key="V2b|table", detail="%d atoms, %d rows" % (len(al), 2 ** len(al)))
+
 
 def run(F, R, tier, M=None):
     M = M or ThrowModel(F)
@@ -213,7 +304,7 @@ def run(F, R, tier, M=None):
             if ty not in ("gm2calc::EInvalidInput", "gm2calc::EPhysicalProblem"):
                 continue
             gs = [g for g in S.guards(t) if g[0] != "switch"]
-            gs = [x for g in gs for x in _split_guard(g[0], g[1])]
+            gs = [x for g in gs for x in _split_guard(g[0], g[1], Rr.local_init)]
             force_g = None
             force_txt = None
             defect = []
@@ -279,7 +370,7 @@ def run(F, R, tier, M=None):
         Rr = Renderer(f)
         for t in ths:
             gs = [g for g in S.guards(t) if g[0] != "switch"]
-            gs = [x for g in gs for x in _split_guard(g[0], g[1])]
+            gs = [x for g in gs for x in _split_guard(g[0], g[1], Rr.local_init)]
             conds = []
             for cond, pol in gs:
                 txt = Rr.r(cond)
@@ -332,6 +423,7 @@ def run(F, R, tier, M=None):
         R.check("V2", ty == "gm2calc::" + cls, "%s -> %s" % (label, ty.split("::")[-1]), F.loc(f, t),
                 "documented class is %s" % cls, key="V2|%s|class" % label)
         doc_sites[label] = (hits, final, crx)
+    R.guard(_undecidable_basis, F, R)
     # reachability and ordering of the rejection sites in the public entry points
     R.rule("V2r", "each MSSM rejection site is reached by an unconditional top-level statement of every public "
                   "spectrum entry point; the final-spectrum conditions (tachyon, soft m^2, chargino) are tested "
@@ -368,7 +460,8 @@ def run(F, R, tier, M=None):
             reads = set()
             for f_, t_, ty_ in hits:
                 S_ = Struct(f_)
-                for cond, pol in [x for g in S_.guards(t_) if g[0] != "switch" for x in _split_guard(g[0], g[1])]:
+                for cond, pol in [x for g in S_.guards(t_) if g[0] != "switch"
+                                  for x in _split_guard(g[0], g[1], Renderer(f_).local_init)]:
                     if re.search(crx, Renderer(f_).r(cond)):
                         for d in disjuncts(cond):
                             if re.search(crx, Renderer(f_).r(d)):
